@@ -266,6 +266,10 @@ func (qe *QueryExecutor) loadBlock(ctx context.Context, taskData ResponseTask, l
 		}
 	}
 	data := blockBuffer.Bytes()
+	if data == nil {
+		// a block that was loaded is present even if it is empty (nil means missing further on)
+		data = []byte{}
+	}
 	err = taskData.Traverser.Advance(blockBuffer)
 	if err != nil {
 		log.Errorf("failed to advance traversal, link=%s, nBlocksRead=%d, err=%s", lnk, taskData.Traverser.NBlocksTraversed(), err)
